@@ -296,9 +296,45 @@ def sanitize_literals(line: bytes) -> bytes:
                           m.group(3), line)
 
 
+APPEND_DATES = [b'01-Jan-0001 00:00:00 +0000', b'01-Jan-0001 00:00:00 +1400',
+                b'31-Dec-9999 23:59:59 -1200', b' 1-Jan-1970 00:00:00 +0000',
+                b'01-Jan-1600 00:00:00 +0000', b'29-Feb-2023 00:00:00 +0000',
+                b'31-Dec-9999 23:59:59 +0000', b'01-Jan-2024 10:00:00 +0000']
+
+
+def name_line(rng: random.Random) -> bytes:
+    """A syntactically valid mailbox command carrying a hostile name (or an
+    APPEND with an extreme date)."""
+    def nm() -> bytes:
+        r = rng.random()
+        if r < 0.4:
+            return wire_mailbox(path_name(rng))
+        if r < 0.8:
+            return wire_mailbox(unicode_name(rng, controls=True, max_len=40))
+        if r < 0.9:
+            return wire_mailbox('x' * rng.choice([200, 255, 256, 1000, 5000]))
+        return wire_mailbox(tidy_name(rng))
+    r = rng.random()
+    if r < 0.5:
+        return rng.choice([b'CREATE', b'DELETE', b'SELECT', b'EXAMINE',
+                           b'SUBSCRIBE', b'UNSUBSCRIBE']) + b' ' + nm()
+    if r < 0.65:
+        return b'RENAME ' + nm() + b' ' + nm()
+    if r < 0.75:
+        return b'STATUS ' + nm() + b' (MESSAGES RECENT UIDNEXT)'
+    if r < 0.85:
+        return rng.choice([b'LIST ', b'LSUB ']) + nm() + b' ' + rng.choice(
+            [b'*', b'%', b'""', nm()])
+    from .net import lit
+    return b'APPEND ' + rng.choice([b'INBOX', nm()]) + b' "' + \
+        rng.choice(APPEND_DATES) + b'" ' + lit(b'A: b\r\n\r\nx')
+
+
 def hostile_line(rng: random.Random, state: str) -> bytes:
     """One command line *without* tag and CRLF; may contain deliberate,
     well-formed {n+} literals."""
+    if state != 'nonauth' and rng.random() < 0.25:
+        return name_line(rng)
     pool = list(NONAUTH_CMDS)
     if state in ('auth', 'selected'):
         pool += AUTH_CMDS * 2
